@@ -6,6 +6,6 @@ git -C /repo diff --quiet || { echo "/repo dirty"; exit 3; }
 git -C /repo apply "$d/patch.diff" || exit 3
 t=$(cd /repo && /venv/bin/python -m pytest -q -p no:cacheprovider test/scales 2>&1 | tail -1)
 echo "BENIGN $(basename $d): tests [$t]; $(git -C /repo diff --stat | tail -1)"
-NOEVIDENCE=1 /verif/run_all.sh quick 2>&1 | grep -v "rc=0" 
+NOEVIDENCE=1 /verif/run_all.sh quick 2>&1 | grep -a -v "rc=0" 
 git -C /repo checkout -- .
 echo "BENIGN $(basename $d): done"
